@@ -22,12 +22,12 @@ RULE = ('programs: scope-shape generator (nested function declarations / named a
         'locals so that two- and three-letter names incl. do/if/in/for/new/var/try occur, with catch clauses, nested '
         'functions and a named function expression inside the crowded scope, which is a function or the global one), Annex A derivations and the '
         'corpus, all without with/eval; configurations {obfuscate_globals} x {shadow_funcname} x {minify, '
-        'minify+drop_semi, Unparser(obfuscate, indent)}; every second case on a printer object that has already printed another tree; a case = (program, configuration); non-trivial = at least one '
+        'minify+drop_semi, Unparser(obfuscate, indent)}; every second case on a printer object that has already printed another tree; every fourth with a second output of the same printer object alive and consumed in turns; a case = (program, configuration); non-trivial = at least one '
         'binding was renamed; distinct by that pair.')
 ASSUMPTIONS = ['refscope implements ES5 scoping (10.2, 10.5, 12.14, 13); programs using with / direct eval are out of scope',
                'the rule composition passes reserved_keywords exactly as minify_printer does']
 BUDGET_S = {'quick': 100, 'thorough': 900}
-REQUIRED_HITS = ['obfuscated_print', 'occurrences_checked', 'Obfuscator.finalize', 'NameGenerator.next', 'reused_printer']
+REQUIRED_HITS = ['obfuscated_print', 'occurrences_checked', 'Obfuscator.finalize', 'NameGenerator.next', 'reused_printer', 'interleaved_outputs']
 FLOOR = {'quick': 1500, 'thorough': 20000}
 
 RESERVED = refjs.RESERVED
@@ -347,12 +347,29 @@ def check(ctx, text, cfgs, origin, reuse=False):
         try:
             plain = ''.join(f.text for f in make(False)(tree))
             printer = make(True)
-            if reuse:
-                # the printer object has been used before (C14 demands it is reusable; users do reuse them)
-                for f in printer(warm_tree()):
-                    pass
-                ctx.hit('reused_printer')
-            obf = ''.join(f.text for f in printer(tree))
+            if reuse == 2:
+                # two outputs of one printer object alive at the same time, consumed in turns (a writer that merges
+                # streams does that): the renaming of either must not depend on the other
+                g1, g2 = printer(tree), printer(warm_tree())
+                parts, live = [], [g1, g2]
+                while live:
+                    for g in list(live):
+                        for _ in range(7):
+                            f = next(g, None)
+                            if f is None:
+                                live.remove(g)
+                                break
+                            if g is g1:
+                                parts.append(f.text)
+                obf = ''.join(parts)
+                ctx.hit('interleaved_outputs')
+            else:
+                if reuse:
+                    # the printer object has been used before (C14 demands it is reusable; users do reuse them)
+                    for f in printer(warm_tree()):
+                        pass
+                    ctx.hit('reused_printer')
+                obf = ''.join(f.text for f in printer(tree))
         except RecursionError:
             ctx.count('skipped:resource_limit')
             continue
@@ -409,7 +426,7 @@ def run(ctx):
         for i in range(n):
             text = scope_program(rng, big=(rng.choice([60, 300, 800, 3000]) if i % 97 == 5 else 0))
             sel = cfgs if (ctx.tier == 'thorough' or i % 6 == 0) else [cfgs[i % len(cfgs)], cfgs[(i * 5 + 3) % len(cfgs)]]
-            check(ctx, text, sel, 'scope_shape', reuse=bool(i & 1))
+            check(ctx, text, sel, 'scope_shape', reuse=(0, 1, 2, 1)[i & 3])
             if not (i & 0xf) and ctx.time_left() < ctx.budget_s * 0.3:
                 break
 
@@ -417,7 +434,7 @@ def run(ctx):
             return jsgen.Opts(clean=True, allow_with=False)
         progs = work.Programs(ctx, ctx.per_shard(120, 2500), opts_fn=opts_fn, layouts=('space', 'lines'))
         for i, (text, meta) in enumerate(progs):
-            check(ctx, text, [cfgs[i % len(cfgs)], cfgs[(i + 7) % len(cfgs)]], meta['origin'], reuse=bool(i & 1))
+            check(ctx, text, [cfgs[i % len(cfgs)], cfgs[(i + 7) % len(cfgs)]], meta['origin'], reuse=(0, 1, 2, 1)[i & 3])
             if ctx.out_of_time():
                 break
         progs.report()
@@ -429,7 +446,7 @@ def replay(ctx, witness):
     hooks = Hooks(ctx).install()
     try:
         cfgs = [c for c in configs() if c[0] == witness.get('config')] or configs()
-        check(ctx, witness['text'], cfgs, 'replay', reuse=bool(witness.get('reuse')))
+        check(ctx, witness['text'], cfgs, 'replay', reuse=int(witness.get('reuse') or 0))
     finally:
         hooks.remove()
 
